@@ -304,7 +304,14 @@ func c17EditRegions(r *an.Run) {
 			r.Fail(key+"|"+an.Describe(st.Val), st.Pos(), "the %s of an element's region is set from something other than a neighbour's / its own span or a clamp (%s)", field, an.Describe(st.Val))
 			continue
 		}
-		if kind := posExtremum(an.StaticCallee(call)); kind != "" {
+		kind := posExtremum(an.StaticCallee(call))
+		if an.IsCallTo(call, "builtin:max") && len(call.Call.Args) == 2 {
+			kind = "max"
+		}
+		if an.IsCallTo(call, "builtin:min") && len(call.Call.Args) == 2 {
+			kind = "min"
+		}
+		if kind != "" {
 			// a clamp: Pos may only grow, End may only shrink, and the other operand is the field's current value
 			want := map[string]string{"Pos": "max", "End": "min"}[field]
 			own := false
